@@ -35,6 +35,7 @@ type Case struct {
 	Files      []SrcFile
 	Primary    int  // index of the file that goes through the wuffsfmt path and the model tie
 	Tie        bool // compute the tok/parse tie lines
+	Expr       bool // also push the primary file through parse.ParseExpr (tie line `pexpr`)
 	KeepC      bool // return the generated C (for gcc)
 	TimeoutSec int  // watchdog override (0 = default)
 }
@@ -54,6 +55,7 @@ type Result struct {
 	TokLine     string
 	ParseLine   string
 	ParseLine0  string // parse with nil options (the wuffs-c path), single-file cases
+	ExprLine    string // parse.ParseExpr on the primary file's tokens
 	Accepted    bool
 	C           []byte
 	NTokens     int
@@ -213,6 +215,20 @@ func runCase(c *Case, progress progressFunc) *Result {
 			}
 		}
 		res.NTokens = len(tokens)
+		if tokOK && c.Expr {
+			// parse.ParseExpr: the package's other entry point (an expression on its own).
+			var e *a.Expr
+			var eerr error
+			runStage("expr.parse", res, progress, func() error {
+				e, eerr = parse.ParseExpr(tm, f.Name, tokens, nil)
+				return eerr
+			})
+			if res.Stages[len(res.Stages)-1].Status == "panic" {
+				res.ExprLine = "panic"
+			} else {
+				res.ExprLine = exprLine(e, eerr, f.Name)
+			}
+		}
 		if tokOK {
 			var file *a.File
 			var perr error
